@@ -61,8 +61,11 @@ func verifShuffleSetup(metaFirst bool) *verifShuffleCase {
 	ia := verifChoice("unstakeA", n+1)
 	if ia < n {
 		unstake = append(unstake, c.oldLists[ia])
-		if verifBool("unstakeNext") {
+		switch verifChoice("unstakeSecond", 3) {
+		case 1:
 			unstake = append(unstake, c.oldLists[(ia+1)%n])
+		case 2:
+			unstake = append(unstake, c.oldLists[ia]) // the same validator requested twice
 		}
 	}
 	switch verifChoice("additional", 3) {
@@ -124,7 +127,10 @@ func Verif_C12_conservation() {
 		verifAssert(verifHasKey(c.oldLists, v) == 1, "a validator reported as leaving was eligible or waiting before")
 	}
 	for _, v := range res.StillRemaining {
-		verifAssert(verifHasKey(newE, v)+verifHasKey(newW, v) == 1, "a leaving request that was not honoured leaves the validator in its lists")
+		// (a validator requested twice may have left through its first request; the duplicate then stays "remaining")
+		if verifHasKey(res.Leaving, v) == 0 {
+			verifAssert(verifHasKey(newE, v)+verifHasKey(newW, v) == 1, "a leaving request that was not honoured leaves the validator in its lists")
+		}
 	}
 	for _, v := range append(append([]Validator{}, newE...), newW...) {
 		verifAssert(verifHasKey(c.all, v) == 1, "no validator appears out of nowhere")
